@@ -216,6 +216,55 @@ theorem inRange_sliceIdx : ∀ (ix : List SliceTerm) (s s' idx : List Nat), slic
       have := Bound.resolve_le b d
       exact ⟨by omega, inRange_sliceIdx ts s r is hr' hr.2⟩
 
+/-! ### `pad`, boolean-mask assignment, reductions along an axis -/
+
+theorem padShape_length : ∀ (ws : List (Nat × Nat)) (s : List Nat), ws.length = s.length →
+    (padShape ws s).length = s.length
+  | [], [], _ => rfl
+  | [], _ :: _, h => by simp at h
+  | _ :: _, [], h => by simp at h
+  | _ :: ws, _ :: s, h => by simp [padShape, padShape_length ws s (by simpa using h)]
+
+/-- an element of a padded array that `padIn` places inside the original is read at an in-range index -/
+theorem inRange_padSrc : ∀ (ws : List (Nat × Nat)) (s idx : List Nat), ws.length = s.length →
+    InRange (padShape ws s) idx → padIn ws s idx = true → InRange s (padSrc ws idx)
+  | [], [], [], _, _, _ => by simp [padSrc, InRange]
+  | [], [], _ :: _, _, h, _ => by simp [padShape, InRange] at h
+  | [], _ :: _, _, h, _, _ => by simp at h
+  | _ :: _, [], _, h, _, _ => by simp at h
+  | _ :: _, _ :: _, [], _, h, _ => by simp [padShape, InRange] at h
+  | w :: ws, d :: s, i :: idx, hl, h, hin => by
+    simp only [padShape, InRange] at h
+    simp only [padIn, Bool.and_eq_true, decide_eq_true_eq] at hin
+    simp only [padSrc, InRange]
+    exact ⟨by omega, inRange_padSrc ws s idx (by simpa using hl) h.2 hin.2.2⟩
+
+theorem inRange_take : ∀ (k : Nat) (s idx : List Nat), InRange s idx → InRange (s.take k) (idx.take k)
+  | 0, _, _, _ => by simp [InRange]
+  | _ + 1, [], [], _ => by simp [InRange]
+  | _ + 1, [], _ :: _, h => by simp [InRange] at h
+  | _ + 1, _ :: _, [], h => by simp [InRange] at h
+  | k + 1, _ :: s, _ :: idx, h => by
+    simp only [List.take_succ_cons, InRange]
+    exact ⟨h.1, inRange_take k s idx h.2⟩
+
+/-- putting `t` back at position `k` of an index of the reduced array gives an index of the operand -/
+theorem inRange_insertAt_of_removeAt : ∀ (k t : Nat) (s idx : List Nat), k < s.length →
+    InRange (removeAt k s) idx → t < s.getD k 0 → InRange s (insertAt k t idx)
+  | _, _, [], _, hk, _, _ => by simp at hk
+  | 0, t, d :: s, idx, _, h, ht => by
+    simp only [removeAt] at h
+    simp only [insertAt, InRange]
+    exact ⟨by simpa using ht, h⟩
+  | k + 1, t, d :: s, [], hk, h, _ => by
+    cases s with
+    | nil => simp at hk
+    | cons e s => simp [removeAt, InRange] at h
+  | k + 1, t, d :: s, i :: idx, hk, h, ht => by
+    simp only [removeAt, InRange] at h
+    simp only [insertAt, InRange]
+    exact ⟨h.1, inRange_insertAt_of_removeAt k t s idx (by simpa using hk) h.2 (by simpa using ht)⟩
+
 /-! ### `reshape`: the data stays, the shape changes -/
 
 /-- element `idx` of a reshaped array is the element of the original with the same C-order position -/
